@@ -96,10 +96,12 @@ impl Value {
 
     pub fn integer(self) -> Result<i64> {
         match self {
-            Self::Number(val) => val
-                .to_string()
-                .parse()
-                .map_or(Err(Error::InvalidInteger), |num| Ok(num)),
+            Self::Number(val) => {
+                if !val.fract().is_zero() {
+                    return Err(Error::InvalidInteger);
+                }
+                val.to_i64().ok_or(Error::InvalidInteger)
+            }
             _ => Err(Error::InvalidInteger),
         }
     }
